@@ -25,11 +25,11 @@ type Case struct {
 }
 
 func gen(t *rapid.T) Case {
-	return Case{Project: jgen.GenProject(t, jgen.Opts{Bodies: true, MultiByte: true, Interfaces: true, MaxUnits: 4, MaxMethods: 4, Anon: true, Wide: true, RichDecl: true, Loops: true})}
+	return Case{Project: jgen.GenProject(t, jgen.Opts{Bodies: true, MultiByte: true, Interfaces: true, MaxUnits: 4, MaxMethods: 4, Anon: true, Wide: true, RichDecl: true, Loops: true, SharedMethodNames: true, UnqualifiedForeign: true})}
 }
 
 func genScoped(t *rapid.T) Case {
-	return Case{Project: jgen.GenProject(t, jgen.Opts{Bodies: true, ScopedReuse: true, MaxUnits: 3, MaxMethods: 4, Anon: true, Wide: true, RichDecl: true, Loops: true})}
+	return Case{Project: jgen.GenProject(t, jgen.Opts{Bodies: true, ScopedReuse: true, MaxUnits: 3, MaxMethods: 4, Anon: true, Wide: true, RichDecl: true, Loops: true, SharedMethodNames: true, UnqualifiedForeign: true})}
 }
 
 func check(c Case) pbt.Verdict {
@@ -103,6 +103,9 @@ func check(c Case) pbt.Verdict {
 				if e.Decl != "" {
 					shapes["recv_local_declared_in_"+e.Decl] = true
 				}
+				for _, l := range nameLabels(c.Project, i, f, e) {
+					shapes[l] = true
+				}
 				if e.Line == lastLine {
 					sameLine = true
 				}
@@ -159,6 +162,83 @@ func check(c Case) pbt.Verdict {
 	return v
 }
 
+// nameLabels classifies an invocation by what else its callee name denotes in the project: labels
+// only, computed from the generator's ground truth (nothing here is asserted).
+func nameLabels(p jgen.Project, ui int, f jgen.FuncTruth, e jgen.Event) []string {
+	if e.Kind != "call" {
+		return nil
+	}
+	u := p.Units[ui]
+	ownEarlier, ownLater, ownSelf := false, false, false
+	for _, g := range u.Funcs {
+		if g.Name == e.Name && !g.IsCtor {
+			switch {
+			case g.DeclLine == f.DeclLine && g.NameCol == f.NameCol:
+				ownSelf = true
+			case g.DeclLine > f.DeclLine || g.DeclLine == f.DeclLine && g.NameCol > f.NameCol:
+				ownLater = true
+			default:
+				ownEarlier = true
+			}
+		}
+	}
+	var out []string
+	if e.Recv != "implicit" {
+		if (ownEarlier || ownLater || ownSelf) && e.Resolve {
+			out = append(out, "variable_receiver_callee_is_also_an_own_method")
+		}
+		return out
+	}
+	if ownLater {
+		out = append(out, "implicit_callee_declared_after_the_caller")
+	}
+	if ownEarlier {
+		out = append(out, "implicit_callee_declared_before_the_caller")
+	}
+	if ownSelf {
+		out = append(out, "implicit_callee_is_the_caller")
+	}
+	for oi, o := range p.Units {
+		if oi == ui {
+			continue
+		}
+		declares := false
+		for _, g := range o.Funcs {
+			if g.Name == e.Name && !g.IsCtor {
+				declares = true
+			}
+		}
+		if !declares {
+			continue
+		}
+		rel := "unrelated_class"
+		if o.Pkg == u.Pkg {
+			rel = "same_package_class"
+		}
+		for _, im := range u.Imports {
+			switch {
+			case im.Text == o.FullName() && !im.Static:
+				rel = "imported_class"
+			case im.Text == o.FullName() && im.Static && im.Wildcard:
+				out = append(out, "implicit_callee_also_declared_by_class_statically_imported_on_demand")
+			}
+		}
+		if u.ExtendsFull == o.FullName() {
+			rel = "superclass"
+		}
+		for _, in := range u.Implements {
+			if in == o.Name {
+				rel = "implemented_interface"
+			}
+		}
+		out = append(out, "implicit_callee_also_declared_by_"+rel)
+		if ownLater && !ownEarlier && rel == "imported_class" {
+			out = append(out, "implicit_callee_declared_only_later_and_by_imported_class")
+		}
+	}
+	return out
+}
+
 func renderCalls(cs []core_domain.CodeCall) string {
 	var out []string
 	for _, c := range cs {
@@ -200,12 +280,13 @@ var _ = filepath.Join
 func init() {
 	pbt.SetProperty("C02")
 	jgen.SetExcluded(pbt.Excluded)
-	pbt.Describe("rapid-generated conventional Java projects (jgen, 1-4 units) whose method and constructor bodies hold 0-15 statements (local declarations, assignments, if/else, for, for-each, while, switch, try/catch/finally, return, expression statements) nested up to depth 3; enhanced for statements over project classes, primitives (int, long, char, double), arrays (int[], String[]), String / Object / Integer and List<String> elements, with or without `final`; classic for statements whose loop variable is an int or a local variable of a project class declared in the header (for (Node n = first; n != null; n = n.next()), called in the header and the body, and in the scoped_names sub-check possibly named like a field it shadows inside the loop only); bodies of if / else / for / for-each / while / do written as a block or as a single statement without braces on the same or the next line (a call, an assignment or another loop / branch, hence `else if` chains), with invocations of every receiver kind (implicit, this, field, this.field, parameter, local, for-each variable, static, chained, on a fresh object, lambda body), `new` expressions, several per line, arguments over several lines, any indentation (blanks or tabs), string literals and comments with multi-byte characters in front of call sites. Oracle: the ordered list of (kind, name, line, column) recorded by the printer for each function; recorded calls must match it one to one in order, each recorded column range must select the callee identifier (in characters), creations must carry the created type, and for implicit / field / parameter / local receivers whose declared type is a plain project or imported class the recorded package and node must be that class. Non-trivial = >= 3 invocations of >= 2 receiver kinds in the project, or two invocations on one line; distinct = hash of the (kind, receiver kind, column) sequence.",
+	pbt.Describe("rapid-generated conventional Java projects (jgen, 1-4 units) whose method and constructor bodies hold 0-15 statements (local declarations, assignments, if/else, for, for-each, while, switch, try/catch/finally, return, expression statements) nested up to depth 3; enhanced for statements over project classes, primitives (int, long, char, double), arrays (int[], String[]), String / Object / Integer and List<String> elements, with or without `final`; classic for statements whose loop variable is an int or a local variable of a project class declared in the header (for (Node n = first; n != null; n = n.next()), called in the header and the body, and in the scoped_names sub-check possibly named like a field it shadows inside the loop only); bodies of if / else / for / for-each / while / do written as a block or as a single statement without braces on the same or the next line (a call, an assignment or another loop / branch, hence `else if` chains), with invocations of every receiver kind (implicit, this, field, this.field, parameter, local, for-each variable, static, chained, on a fresh object, lambda body), `new` expressions, several per line, arguments over several lines, any indentation (blanks or tabs), string literals and comments with multi-byte characters in front of call sites; method names may be shared between the classes of a project, so that the callee of an unqualified call (declared before the caller, after it, or the caller itself) may also be declared by a class the file imports, by a class of the same package, by the project superclass or an implemented interface, and the callee of a call on a variable may also be a method of the enclosing class; files may carry static imports of project classes (`import static pkg.P.*;`, also as a mere decoy next to own methods named like static methods of P, and `import static pkg.P.m;`) and unqualified calls of the static methods so imported and of methods inherited from the project superclass (receiver kinds staticimport and inherited). Oracle: the ordered list of (kind, name, line, column) recorded by the printer for each function; recorded calls must match it one to one in order, each recorded column range must select the callee identifier (in characters), creations must carry the created type, and for implicit / field / parameter / local receivers whose declared type is a plain project or imported class the recorded package and node must be that class. Non-trivial = >= 3 invocations of >= 2 receiver kinds in the project, or two invocations on one line; distinct = hash of the (kind, receiver kind, column) sequence.",
 		"variable names are unique per project, so that a receiver name denotes one declaration (name reuse across files is C07's domain)",
 		"resolution is asserted only for the receiver kinds the statement lists; this., for-each, lambda, static and chained receivers are checked for name/position/order only",
 		"array creations (`new int[3]`) are written but are not object creations and must not be recorded",
 		"a variable declared in the header of a classic for is a local variable (resolution asserted, class label recv_local_declared_in_forinit); the variable of an enhanced for keeps the receiver kind for-each (name/position/order only)",
-		"a statement without braces is never a declaration (Java forbids it)")
+		"a statement without braces is never a declaration (Java forbids it)",
+		"unqualified calls of inherited and statically imported methods have no implicit receiver of the enclosing type in the statement's sense: name/position/order only. A method is imported with `import static pkg.P.m;`, or called through an on-demand static import, only when the class neither declares nor inherits from its project superclass a method of that name (which would hide the imported one) and no second static import brings the same name in (the call would be ambiguous)")
 	pbt.Register("callsites", 400, 3000, gen, check)
 	// the same oracle on units whose methods reuse parameter / local names with different types
 	// and shadow fields: a receiver name denotes the declaration visible at the call site
